@@ -153,7 +153,7 @@ def worker(args):
         junk_seed = rng.randrange(10 ** 9)
         planted = lab.trees.plant_junk(random.Random(junk_seed), ents)
         rec.count("junk_planted", len(planted))
-        rec.count("junk_desync", sum(1 for p in planted if "zz" not in p and ".data.json" not in p and "Thumbs" not in p and ".DS_Store" not in p and not p.endswith(("~", ".bak", ".txt"))))
+        rec.count("junk_desync", lab.trees.planted_desync)
         for s in searches:
             if baselines[s] is None:
                 continue
